@@ -84,7 +84,7 @@ TTrain ==
 
 TResample ==
     /\ IsEvent("Resample")
-    /\ LET o == [slots |-> ToSlots(Ev.slots)] IN
+    /\ LET o == [slots |-> ToSlots(Ev.slots), labelsFromModel |-> Ev.labelsFromModel] IN
        /\ cur' = o.slots
        /\ pc' = "resampled"
        /\ UNCHANGED <<cfg, iter, beta, ess, logz, wts, calls, evals, hist, clus, modes, nsw>>
